@@ -249,6 +249,7 @@ Reject(st, why) == IF st.ok THEN [st EXCEPT !.ok = FALSE, !.why = why, !.m = "re
 Pre3Now(st)   == Top(st).pre3
 
 \* ordered metadata: replace in place, else append
+ZHasKey(ps, k) == \E i \in 1..Len(ps) : ps[i][1] = k
 PutPair(ps, k, v) ==
     IF \E i \in 1..Len(ps) : ps[i][1] = k
     THEN [i \in 1..Len(ps) |-> IF ps[i][1] = k THEN <<k, v>> ELSE ps[i]]
@@ -264,11 +265,17 @@ PutSorted(ps, k, v) ==
 \* a completed value goes to the top frame
 Deliver(st, v) ==
     LET f == Top(st)
-    IN CASE f.t = "grid" /\ f.ph = "gmeta" -> Mode(SetTop(st, [f EXCEPT !.meta = PutPair(f.meta, f.key, v)]), "afterVal")
-         [] f.t = "grid" /\ f.ph = "cols"  -> Mode(SetTop(st, [f EXCEPT !.cmeta = PutPair(f.cmeta, f.key, v)]), "afterVal")
+        \* a tag name given twice in one metadata list / dict, or a second `ver' after the header: what the text
+        \* denotes is not defined (the last one wins here); read, not judged
+        dup == \/ f.t = "grid" /\ f.ph = "gmeta" /\ (ZHasKey(f.meta, f.key) \/ f.key = cVer)
+               \/ f.t = "grid" /\ f.ph = "cols" /\ ZHasKey(f.cmeta, f.key)
+               \/ f.t = "dict" /\ ZHasKey(f.meta, f.key)
+        s1  == [st EXCEPT !.amb = st.amb \/ dup]
+    IN CASE f.t = "grid" /\ f.ph = "gmeta" -> Mode(SetTop(s1, [f EXCEPT !.meta = PutPair(f.meta, f.key, v)]), "afterVal")
+         [] f.t = "grid" /\ f.ph = "cols"  -> Mode(SetTop(s1, [f EXCEPT !.cmeta = PutPair(f.cmeta, f.key, v)]), "afterVal")
          [] f.t = "grid" /\ f.ph = "rows"  -> Mode(SetTop(st, [f EXCEPT !.cur = Append(f.cur, v)]), "afterVal")
          [] f.t = "list" -> Mode(SetTop(st, [f EXCEPT !.cur = Append(f.cur, v)]), "afterVal")
-         [] f.t = "dict" -> Mode(SetTop(st, [f EXCEPT !.meta = PutSorted(f.meta, f.key, v)]), "afterVal")
+         [] f.t = "dict" -> Mode(SetTop(s1, [f EXCEPT !.meta = PutSorted(f.meta, f.key, v)]), "afterVal")
          [] OTHER -> Reject(st, "internal_deliver")
 
 GridValue(f) == <<18, f.ver, f.meta, f.cols, f.rows>>
